@@ -2710,7 +2710,7 @@ def repartition_size(bag, size):
     # 1. split each partition that is larger than partition size
     nsplits = [1 + mem_usage // size for mem_usage in mem_usages]
     if any(nsplit > 1 for nsplit in nsplits):
-        split_name = f"repartition-split-{tokenize(bag, size)}"
+        split_name = f"repartition-split-{tokenize(bag, size, nsplits)}"
         bag = _split_partitions(bag, nsplits, split_name)
         # update mem_usages to account for the split partitions
         split_mem_usages = []
@@ -2722,7 +2722,9 @@ def repartition_size(bag, size):
     assert all(mem_usage <= size for mem_usage in mem_usages)
     new_npartitions = list(map(len, iter_chunks(mem_usages, size)))
     new_partitions_boundaries = accumulate(operator.add, new_npartitions)
-    new_name = f"repartition-{tokenize(bag, size)}"
+    # The boundaries come from memory usages that are estimated by sampling and
+    # vary from call to call: they are part of what the result is
+    new_name = f"repartition-{tokenize(bag, size, new_npartitions)}"
     return _repartition_from_boundaries(bag, new_partitions_boundaries, new_name)
 
 
